@@ -293,3 +293,25 @@ def solve_model(m, solver='auto'):
         else:
             m.solve(solver, display=False)
     return m.get()
+
+
+def run_difftest(ctx, script, n, component):
+    """run one of harness/difftests/*.py (real rsome vs the Lean driver, exact comparison) as a correspondence"""
+    import re
+    seed = int(ctx.rng.integers(2 ** 31))
+    path = os.path.join(VERIF, 'harness', 'difftests', script)
+    env = dict(os.environ, RSOMEV_LEAN_DIR=LEAN_DIR, RSOME_REPO=REPO)
+    p = subprocess.run(['/venv/bin/python', path, str(seed), str(n)], capture_output=True, text=True, timeout=3600, env=env)
+    m = re.search(r'cases (\d+) mismatches (\d+)', p.stdout)
+    if not m:
+        raise LeanError(f'difftest {script} produced no summary: {p.stdout[-500:]} {p.stderr[-1500:]}')
+    cases, mism = int(m.group(1)), int(m.group(2))
+    ctx.programs += cases; ctx.evaluations += cases
+    for line in p.stdout.splitlines():
+        if line.startswith(('coverage', 'histogram')):
+            ctx.notes.append(f'{script}: {line[:400]}')
+    ctx.count('difftest:' + script + ':cases', cases)
+    if mism:
+        ctx.disagree(component, {"mismatches": mism, "seed": seed, "n": n, "details": (p.stderr + p.stdout)[-3000:]},
+                     {"difftest": script, "seed": seed, "n": n})
+    return cases, mism
